@@ -27,17 +27,15 @@ def schemaArg (a : Json) : Except String (GroupDefs × List GParticle) := do
   pure (← dDefs (fld a "defs"), ← (← asArr (fld a "types")).mapM dGParticle)
 
 /-- one answer per class; a class whose references do not resolve makes the run fail -/
-def perClass (f : List Site → Option (List Site)) (cs : List (Option (List Site))) : Json :=
+def perClass (f : List Site → List Site) (cs : List (Option (List Site))) : Json :=
   if cs.any (·.isNone) then err "GEN:CodegenError" else
-  let outs := cs.map fun c => c.bind f
-  if outs.any (·.isNone) then err "LEAK:AssertionError" else
-  ok (jList (fun (c : Option (List Site)) => jList jSite (c.getD [])) outs)
+  ok (jList (fun (c : Option (List Site)) => jList jSite (f (c.getD []))) cs)
 
 def run (op : String) (a : Json) : Option (Except String Json) :=
   match op with
   | "gen.grp_sites" => some do
       let (defs, types) ← schemaArg a
-      pure <| perClass some (schemaSites defs types)
+      pure <| perClass id (schemaSites defs types)
   | "gen.grp_calc" => some do
       let classes ← (← asArr (fld a "classes")).mapM fun c => do (← asArr c).mapM dSite
       pure <| ok (jList (fun ss => jList jSite (calculatePaths ss)) classes)
